@@ -27,7 +27,7 @@ Falsy(v) == v.t = "nil" \/ (v.t = "bool" /\ ~v.b) \/ (v.t \in {"str", "html"} /\
 
 T == <<Text(<<"T">>)>>
 Fv == <<Text(<<"F">>)>>
-Contexts == {"if", "elseif", "not", "notnot", "and", "or", "unknown"}
+Contexts == {"if", "elseif", "not", "notnot", "and", "or", "andR", "orR", "unknown"}
 \* the route by which the tested value reaches the condition: read from a variable, element of a Go
 \* slice, value of a Go map, result of a Go helper (no variable read at all)
 Routes == {"var", "elem", "mapval", "helper"}
@@ -44,6 +44,9 @@ KindProgR(ctx, route) ==
     [] ctx = "notnot" -> <<Emit(Not(Not(X)))>>
     [] ctx = "and"    -> <<Emit(Bin("&&", X, Bool(TRUE)))>>
     [] ctx = "or"     -> <<Emit(Bin("||", X, Bool(FALSE)))>>
+    \* the tested value is the RIGHT operand (the left one does not decide)
+    [] ctx = "andR"   -> <<Emit(Bin("&&", Bool(TRUE), X))>>
+    [] ctx = "orR"    -> <<Emit(Bin("||", Bool(FALSE), X))>>
 KindProg(ctx) == KindProgR(ctx, "var")
 \* what the statement of C07 says each context renders for a truthy / falsy value
 KindText(ctx, truthy) ==
@@ -89,6 +92,16 @@ Init ==
   \/ \E n \in 1..MaxN : \E tv \in [1..n -> BOOLEAN], pl \in {"top", "fn"} :
         LET prog == Place(pl, IfChain(Cond(1, tv[1]), <<>>, [i \in 1..(n - 1) |-> [c |-> Cond(i + 1, tv[i + 1]), b |-> <<>>]], <<Text(<<"Z">>)>>, TRUE)) IN
         cs = [fam |-> "emptychain", name |-> pl, ctx |-> "chain", prog |-> prog, data |-> EmptyScope, tv |-> tv, hasel |-> TRUE,
+              res |-> Run(prog, WithHelpers(EmptyScope), EmptyScope, ""), want |-> <<>>]
+  \* a chain with else-ifs that holds, in a later branch, another chain with else-ifs -- after an earlier chain with an else-if
+  \/ \E t4 \in BOOLEAN, t5 \in BOOLEAN, t7 \in BOOLEAN, where \in {"elif2", "else"} :
+        LET inner == IfChain(Cond(6, FALSE), <<Text(<<"E">>)>>, <<[c |-> Cond(7, t7), b |-> <<Text(<<"G">>)>>]>>, <<Text(<<"H">>)>>, TRUE)
+            first == IfChain(Cond(1, FALSE), <<Text(<<"A">>)>>, <<[c |-> Cond(2, TRUE), b |-> <<Text(<<"B">>)>>]>>, <<>>, FALSE)
+            outer == IF where = "elif2"
+                     THEN IfChain(Cond(3, FALSE), <<Text(<<"C">>)>>, <<[c |-> Cond(4, t4), b |-> <<Text(<<"D">>)>>], [c |-> Cond(5, t5), b |-> <<Text(<<"<">>), Emit(inner), Text(<<">">>)>>]>>, <<Text(<<"Z">>)>>, TRUE)
+                     ELSE IfChain(Cond(3, FALSE), <<Text(<<"C">>)>>, <<[c |-> Cond(4, t4), b |-> <<Text(<<"D">>)>>], [c |-> Cond(5, t5), b |-> <<Text(<<"F">>)>>]>>, <<Text(<<"<">>), Emit(inner), Text(<<">">>)>>, TRUE)
+            prog == <<Emit(first), Text(<<"|">>), Emit(outer), Text(<<"|">>), Emit(first)>> IN
+        cs = [fam |-> "nested", name |-> where, ctx |-> "chain", prog |-> prog, data |-> EmptyScope, tv |-> <<t4, t5, t7>>, hasel |-> TRUE,
               res |-> Run(prog, WithHelpers(EmptyScope), EmptyScope, ""), want |-> <<>>]
   \* two values tested one after the other in ONE render (a verdict about one value must not carry over to the next)
   \/ \E k1 \in KindPool, k2 \in KindPool, ctx \in {"if", "not"} :
@@ -141,6 +154,9 @@ FailChainTheorem ==
     /\ Len(cs.res.log) = nc + (IF taken THEN 1 ELSE 0)
     /\ \A i \in 1..nc : cs.res.log[i].f = "p" /\ cs.res.log[i].id = i
     /\ taken => cs.res.log[nc + 1].f = "fail"
+
+\* nested chains: the reference semantics renders them (the expectation is its output and probe sequence)
+NestedTheorem == cs.fam = "nested" => cs.res.k = "out"
 
 Expect(r) == CASE r.k = "out" -> [k |-> "out", pieces |-> r.pieces, log |-> r.log]
                [] r.k = "err" -> [k |-> "err", w |-> r.w, log |-> r.log]
